@@ -510,3 +510,6 @@ def run(ck: Check, repo: Repo) -> None:
     rule_shebang(ck, repo)
     rule_partition(ck, repo)
     rule_bom(ck, repo)
+    # a write that fails on its own text after the truncating open leaves the file EMPTY (shared with C11-R10)
+    from . import c11
+    c11.rule_write_cannot_fail_on_content(ck, repo, "R6")
